@@ -248,6 +248,17 @@ func Sockaddr(t *rapid.T) (kenc.Rec, map[string]string) {
 		}
 		want["family"], want["addr"], want["port"] = "ipv6", "IP6:"+kenc.Hex(ip[:]), strconv.Itoa(int(port))
 	case 2:
+		if k := rapid.IntRange(0, 4).Draw(t, "unixkind"); k < 2 {
+			// an unnamed socket (just the family, possibly followed by the zeroed rest of the caller's buffer)
+			// and an abstract one (a name that starts with a NUL byte): only the family is asserted
+			b = []byte{1, 0}
+			if k == 1 {
+				b = append(append(b, 0), Val(t, "abstractname", ValOpts{MaxLen: 30})...)
+			}
+			b = append(b, make([]byte, rapid.SampledFrom([]int{0, 0, 1, 2, 14, 108}).Draw(t, "unixzeros"))...)
+			want["family"] = "unix"
+			break
+		}
 		p := Val(t, "unixpath", ValOpts{MaxLen: 40})
 		if p[0] == 0 {
 			p[0] = '/'
